@@ -149,6 +149,28 @@ def check(run):
     both = {dotted(t) for n in walk_local(clr.node) if isinstance(n, ast.Assign) for t in n.targets}
     run.ob("C27.R2", "%s:clears-both" % clr.fq, both >= {A, B}, run.site(clr), "" if both >= {A, B} else "clearAllNameAddr resets only %s" % sorted(both))
     run.floor("C27.R2", 13)
+    # R3 the two maps are distinct objects: a whole-map assignment gives each map its own fresh container
+    for name, f in sorted(cls.methods.items()):
+        byname = {}
+        for n in walk_local(f.node):
+            if not isinstance(n, ast.Assign):
+                continue
+            tg = [dotted(t) for t in n.targets]
+            mine = [t for t in tg if t in (A, B)]
+            if not mine:
+                continue
+            bad = None
+            if A in tg and B in tg:
+                bad = "one chained assignment binds both maps to the same object: every later write lands in both maps"
+            elif dotted(n.value) in (A, B):
+                bad = "%s is bound to the other map itself" % mine[0].split(".")[-1]
+            elif isinstance(n.value, ast.Name):
+                prev = byname.get(n.value.id)
+                if prev is not None and prev != mine[0]:
+                    bad = "both maps are bound to the same local `%s`" % n.value.id
+                byname[n.value.id] = mine[0]
+            run.ob("C27.R3", "%s:own-container:%s" % (f.fq, keytext(f, n)), bad is None, run.site(f, n), bad or "")
+    run.floor("C27.R3", 4)
 
 
 MUTANTS = [
@@ -160,5 +182,7 @@ MUTANTS = [
     Mutant("add-no-addr-conflict-test", NM, "Namer.addNameAddr", "        if addr in self._nameByAddr:\n            if name == self._nameByAddr[addr]:\n                return False  # already existing matching entry\n            else:\n                raise  hioing.NamerError(f\"Attempt to add conflicting entry \"\n                               f\"({name=}, {addr=}).\")\n", "", {"C27.R1"}),
     Mutant("change-old-after-overwrite", NM, "Namer.changeNameAtAddr", "        oldName = self._nameByAddr[addr]\n        self._nameByAddr[addr] = name\n", "        self._nameByAddr[addr] = name\n        oldName = self._nameByAddr[addr]\n", {"C27.R1"}),
     Mutant("rem-mismatch-check-dropped", NM, "Namer.remNameAddr", "            if addr != self._addrByName[name]:  # mismatch do nothing\n                return False\n", "", {"C27.R1"}),
+    Mutant("clear-aliases-maps", NM, "Namer.clearAllNameAddr", "        self._addrByName = dict()\n        self._nameByAddr = dict()", "        self._addrByName = self._nameByAddr = dict()", {"C27.R3"}),
+    Mutant("init-aliases-maps", NM, "Namer.__init__", "        self._nameByAddr = dict()\n", "        self._nameByAddr = self._addrByName\n", {"C27.R3"}),
     Mutant("silent-temp-renamed", NM, "Namer.changeAddrAtName", "oldAddr", "prior", silent=True, count=0),
 ]
